@@ -716,10 +716,28 @@ func (g *gen) opCallbackWithCall() bool {
 }
 
 func (g *gen) runGas() {
-	g.setupWorld(worldOpts{activation: 0, epoch: 0})
+	// in half of the worlds the epoch-gated functions start inactive: schedule changes made before their activation
+	// epoch must price them once they are enabled
+	act := uint32(0)
+	if g.seed%4 != 0 {
+		act = uint32(1 + g.seed%2)
+	}
+	g.setupWorld(worldOpts{activation: act, epoch: 0})
 	g.standardState()
 	g.widenRoles()
-	g.loop([]wop{{50, g.opGasLadder}, {15, g.opGasWindow}, {8, g.opGasmapChange}, {8, g.opCallbackWithCall}, {5, g.opSKV}, {12, g.lateNetwork}})
+	cur := int64(0)
+	opEpochUp := func() bool {
+		if cur >= int64(act)+1 {
+			return false
+		}
+		// a schedule change right before the epoch moves (accepted or rejected), then the move
+		g.opGasmapChange()
+		cur++
+		g.emitf("epoch * %d", cur)
+		return true
+	}
+	g.loop([]wop{{50, g.opGasLadder}, {15, g.opGasWindow}, {8, g.opGasmapChange}, {8, g.opCallbackWithCall}, {5, g.opSKV}, {12, g.lateNetwork},
+		{4, opEpochUp}})
 }
 
 // ---------------------------------------------------------------------------
@@ -762,8 +780,8 @@ func (g *gen) runNonces() {
 		g.sft = append(g.sft, tok)
 		g.emitf("raw %d %s %s %s", g.shardOf(a), hx(a), hx([]byte(oracle.NoncePrefix+string(tok))), hx(be(seeds[g.r.Intn(len(seeds))])))
 		g.setRoles(a, tok, nftRoles...)
-		g.do(g.user(oracle.FnNFTCreate, a, a, bigGas, g.createArgs(tok, 2, 0)...))
-		g.do(g.user(oracle.FnNFTCreate, a, a, bigGas, g.createArgs(tok, 2, 0)...))
+		g.do(g.user(oracle.FnNFTCreate, a, a, bigGas, g.createArgs(tok, 2, 1)...))
+		g.do(g.user(oracle.FnNFTCreate, a, a, bigGas, g.createArgs(tok, 2, 1)...))
 		return true
 	}
 	opHandOverLate := func() bool {
@@ -776,12 +794,13 @@ func (g *gen) runNonces() {
 		if g.r.Intn(2) == 0 {
 			g.drainHandOvers()
 		}
-		// creates by the old and by the new holder (the latter possibly before the delivery)
-		g.do(g.user(oracle.FnNFTCreate, old, old, bigGas, g.createArgs(tok, 1, 0)...))
-		g.do(g.user(oracle.FnNFTCreate, next, next, bigGas, g.createArgs(tok, 1, 0)...))
+		// creates by the old and by the new holder (the latter possibly before the delivery); the old holder keeps its
+		// other roles (add-quantity among them), so it also tries quantities above 1
+		g.do(g.user(oracle.FnNFTCreate, old, old, bigGas, g.createArgs(tok, []uint64{1, 2, 7}[g.r.Intn(3)], 1)...))
+		g.do(g.user(oracle.FnNFTCreate, next, next, bigGas, g.createArgs(tok, []uint64{1, 1, 3}[g.r.Intn(3)], 1)...))
 		if g.r.Intn(2) == 0 {
 			g.drainHandOvers()
-			g.do(g.user(oracle.FnNFTCreate, next, next, bigGas, g.createArgs(tok, 1, 0)...))
+			g.do(g.user(oracle.FnNFTCreate, next, next, bigGas, g.createArgs(tok, 1, 1)...))
 		}
 		// the new holder also needs the other NFT roles to be useful later
 		if g.r.Intn(2) == 0 && !g.handOverInFlight(tok) {
@@ -1050,7 +1069,7 @@ func (g *gen) runAdversarial() {
 		g.do(sp)
 		return true
 	}
-	g.loop([]wop{{54, g.opAdversarial}, {18, g.opSemiValid}, {4, opRoles}, {6, g.opAlias}, {4, g.opMulti}, {3, g.opNFTTransfer}, {3, g.opTransfer}, {8, g.lateNetwork}})
+	g.loop([]wop{{54, g.opAdversarial}, {18, g.opSemiValid}, {4, opRoles}, {6, g.opAlias}, {3, g.opAliasTokens}, {4, g.opMulti}, {3, g.opNFTTransfer}, {3, g.opTransfer}, {8, g.lateNetwork}})
 }
 
 // ---------------------------------------------------------------------------
